@@ -68,7 +68,8 @@ Definition R2 (s : st) : Prop := forall u thu o j c, nth_error (threads s) u = S
   (tpc thu = WCas j c \/ tpc thu = WFutex j c) ->
   c <> snd (wait_target s o (lc thu) j) /\ 0 <= c <= gver s (fst (wait_target s o (lc thu) j)).
 Definition S4 (p : pc) : Prop := match p with WCas _ _ | WFutex _ _ | WParked _ _ | WReload _ => True | _ => False end.
-Definition R4 (s : st) : Prop := forall u thu o, nth_error (threads s) u = Some thu -> cur thu = Some o -> S4 (tpc thu) -> ofwait o = true.
+Definition R4 (s : st) : Prop := forall u thu o, nth_error (threads s) u = Some thu -> cur thu = Some o -> S4 (tpc thu) ->
+  ofwait o = true /\ (forall j sl, tpc thu = WParked j sl -> fst (wait_target s o (lc thu) j) = sl).
 Definition small (s : st) : Prop := forall sl, gver s sl < 65536.
 Definition V0 (s : st) : Prop := forall sl, 0 <= gver s sl.
 
@@ -190,7 +191,8 @@ Qed.
 Lemma R24_frame : forall X th', thr_ok2 X -> kbits X = kbits s -> (forall sl, gver s sl <= gver X sl) ->
   (forall o' j c, cur th' = Some o' -> (tpc th' = WCas j c \/ tpc th' = WFutex j c) ->
      c <> snd (wait_target X o' (lc th') j) /\ 0 <= c <= gver X (fst (wait_target X o' (lc th') j))) ->
-  (forall o', cur th' = Some o' -> S4 (tpc th') -> ofwait o' = true) ->
+  (forall o', cur th' = Some o' -> S4 (tpc th') ->
+     ofwait o' = true /\ (forall j sl, tpc th' = WParked j sl -> fst (wait_target X o' (lc th') j) = sl)) ->
   R2 (upd X w th') /\ R4 (upd X w th').
 Proof.
   intros X th' TH K MO OB1 OB2. split.
@@ -209,9 +211,13 @@ Proof.
   - intros u thu' o' H CU PC. destruct (Nat.eq_dec u w) as [->|N].
     + rewrite nth_w in H by auto. inversion H; subst thu'. apply OB2; auto.
     + destruct (nth_bw _ _ _ _ TH N H) as (thu & H0 & [->|(sl0 & _ & ->)]).
-      * eapply R4s; eauto.
-      * destruct (wake_cur sl0 thu) as [CU' LC']. rewrite CU' in CU. apply (R4s u thu o'); auto.
-        destruct (wake_pc sl0 thu) as [E|(j1 & sl1 & E & E')]. rewrite E in PC. auto. rewrite E. exact I.
+      * destruct (R4s u thu o' H0 CU PC) as [A B]. split; auto. intros j sl P.
+        change (wait_target (upd X w th') o' (lc thu) j) with (wait_target X o' (lc thu) j). rewrite (wait_target_ext s X) by auto. auto.
+      * destruct (wake_cur sl0 thu) as [CU' LC']. rewrite CU' in CU.
+        assert (PC0 : S4 (tpc thu)) by (destruct (wake_pc sl0 thu) as [E|(j1 & sl1 & E & E')]; [rewrite E in PC; auto | rewrite E; exact I]).
+        destruct (R4s u thu o' H0 CU PC0) as [A B]. split; auto. intros j sl P. rewrite LC'.
+        change (wait_target (upd X w th') o' (lc thu) j) with (wait_target X o' (lc thu) j). rewrite (wait_target_ext s X) by auto.
+        apply B. destruct (wake_pc sl0 thu) as [E|(j1 & sl1 & E & E')]; congruence.
 Qed.
 
 Lemma Q_frame : forall X th', thr_ok2 X -> kbits X = kbits s ->
@@ -290,7 +296,8 @@ Lemma W_quiet : forall X th', thr_ok2 X -> kbits X = kbits s -> (forall sl, gver
   R2 (upd X w th') /\ R4 (upd X w th') /\ Q (upd X w th').
 Proof.
   intros X th' TH K GV NW NP OB1 OB2.
-  destruct (R24_frame X th' TH K ltac:(intros; rewrite GV; lia) OB1 OB2) as [A B]. split; auto. split; auto.
+  destruct (R24_frame X th' TH K ltac:(intros; rewrite GV; lia) OB1
+              (fun o' CU S => conj (OB2 o' CU S) (fun j sl P => match NP j sl P with end))) as [A B]. split; auto. split; auto.
   pose proof (not_witness NW) as NWT.
   apply Q_frame; auto.
   - intros sl x (o' & j & _ & P & _). destruct (NP j sl P).
@@ -340,6 +347,8 @@ Lemma W_step : forall k progs s w th o s', usage_ok k progs = true -> FInv k pro
 Proof.
   intros k progs s w th o s' U FI RS R2s R4s V0s SM Qs HT HO H.
   pose proof (usage_wake _ _ U) as WS. pose proof FI as FI0. destruct FI as (IV & PR & KB).
+  assert (R4a : forall u0 thu0 ou0, nth_error (threads s) u0 = Some thu0 -> cur thu0 = Some ou0 -> S4 (tpc thu0) -> ofwait ou0 = true)
+    by (intros u0 thu0 ou0 A0 B0 D0; exact (proj1 (R4s u0 thu0 ou0 A0 B0 D0))).
   unfold step_thread in H. cbv zeta in H.
   remember (tpc th) as p0 eqn:E in H. symmetry in E.
   assert (CALM : forall X th', thr_ok2 s X -> kbits X = kbits s -> (forall sl, gver X sl = gver s sl) -> ~ witpc (tpc th) -> calm (tpc th') ->
@@ -435,19 +444,19 @@ Proof.
         destruct PC as [PC|PC]; inversion PC; subst j0 c.
         change (wait_target (set_slot s sl _) o (lc th) j) with (wait_target s o (lc th) j). rewrite gver_setwf.
         apply (R2s w th o j cur); auto.
-      * intros o' CU S. unfold BQInvDefs.cur in *. cbn in CU. rewrite HO in CU. inversion CU; subst o'. apply (R4s w th o); auto. rewrite E. exact I.
+      * intros o' CU S. unfold BQInvDefs.cur in *. cbn in CU. rewrite HO in CU. inversion CU; subst o'. apply (R4a w th o); auto. rewrite E. exact I.
     + apply CALM; [exact TS | reflexivity | intros; reflexivity | exact NW | apply calm_after_wait].
     + apply (SLOW j sl e (if block_no_waiter (slot_word (get_slot s sl)) then WCas j (ver (get_slot s sl)) else WFutex j (ver (get_slot s sl))) (lc th) WT eq_refl).
       * exact RD.
       * destruct (block_no_waiter _); auto.
-      * intros _. apply (R4s w th o); auto. rewrite E. exact I.
+      * intros _. apply (R4a w th o); auto. rewrite E. exact I.
       * exact NW.
   - (* WFutex *)
     assert (NW : ~ witpc (tpc th)) by (rewrite E; exact (fun x => x)).
     destruct (wait_target s o (lc th) j) as [sl e] eqn:WT. destruct (Z.eqb _ _) eqn:EQ; inv H.
     + (* goes to sleep *)
       apply Z.eqb_eq in EQ.
-      assert (OF : ofwait o = true) by (apply (R4s w th o); auto; rewrite E; exact I).
+      assert (OF : ofwait o = true) by (apply (R4a w th o); auto; rewrite E; exact I).
       destruct (R2s w th o j cur HT HO (or_intror E)) as [NE BD]. rewrite WT in NE, BD. cbn [fst snd] in NE, BD.
       assert (VC : gver s sl = cur).
       { unfold slot_word in EQ. pose proof (V0s sl) as V1. pose proof (SM sl) as V2. unfold gver in *.
@@ -455,7 +464,8 @@ Proof.
       set (l' := set_time (lc th) (uidx (lc th)) (tbegin (lc th)) (trem (lc th)) (clock s + trem (lc th))).
       destruct (R24_frame s w th HT R2s R4s s (goto_lc th (WParked j sl) l') TS eq_refl ltac:(intros; lia)) as [A B].
       * intros o' j0 c _ [PC|PC]; discriminate.
-      * intros o' CU _. unfold BQInvDefs.cur in *. cbn in CU. rewrite HO in CU. inversion CU; subst o'. auto.
+      * intros o' CU _. unfold BQInvDefs.cur in *. cbn in CU. rewrite HO in CU. inversion CU; subst o'. split; auto.
+        intros j1 sl1 PC. cbn in PC. inversion PC; subst j1 sl1. cbn [lc goto_lc]. unfold l'. rewrite wait_target_time by auto. rewrite WT. reflexivity.
       * split; auto. split; auto. apply (Q_frame _ _ s w th HT RS Qs); auto.
         -- intros sl0 x (o' & j0 & CU & PC & WT'). unfold BQInvDefs.cur in *. cbn in CU, PC, WT'. rewrite HO in CU. inversion CU; subst o'. inversion PC; subst j0 sl0.
            unfold l' in WT'. rewrite wait_target_time in WT' by auto. rewrite WT in WT'. inversion WT'; subst x. congruence.
@@ -465,13 +475,13 @@ Proof.
     + apply QUIET; [exact TS | reflexivity | intros; reflexivity | exact NW | | | ].
       * intros; discriminate.
       * intros o' j0 c _ [PC|PC]; discriminate.
-      * intros o' CU S. unfold BQInvDefs.cur in *. cbn in CU. rewrite HO in CU. inversion CU; subst o'. apply (R4s w th o); auto. rewrite E. exact I.
+      * intros o' CU S. unfold BQInvDefs.cur in *. cbn in CU. rewrite HO in CU. inversion CU; subst o'. apply (R4a w th o); auto. rewrite E. exact I.
   - (* WParked *)
     assert (NW : ~ witpc (tpc th)) by (rewrite E; exact (fun x => x)).
     destruct (is_timed o && (dl (lc th) <=? clock s)); inv H. apply CALM; [exact TS | reflexivity | intros; reflexivity | exact NW | apply calm_after_wait].
   - (* WReload *)
     assert (NW : ~ witpc (tpc th)) by (rewrite E; exact (fun x => x)).
-    assert (OF : ofwait o = true) by (apply (R4s w th o); auto; rewrite E; exact I).
+    assert (OF : ofwait o = true) by (apply (R4a w th o); auto; rewrite E; exact I).
     destruct (wait_target s o (lc th) j) as [sl e] eqn:WT.
     destruct (block_reload_ready _ _) eqn:RD; [|destruct (is_timed o) eqn:TM; [destruct (block_expired _)|]]; inv H.
     + apply CALM; [exact TS | reflexivity | intros; reflexivity | exact NW | apply calm_after_wait].
@@ -527,7 +537,7 @@ Proof.
       apply Nat.eqb_eq in B; subst sl'. rewrite nth_set_nth_eq; auto. apply Nat.eqb_neq in B. rewrite nth_set_nth_neq; auto. }
     assert (USAGE : forall t tht, nth_error (threads s) t = Some tht -> parkedOn s tht sl (e + 1) -> fwake (oflags o) = true).
     { intros t tht HTt (ot & jt & CUt & PCt & WTt).
-      assert (OFt : ofwait ot = true) by (apply (R4s t tht ot); auto; rewrite PCt; exact I).
+      assert (OFt : ofwait ot = true) by (apply (R4a t tht ot); auto; rewrite PCt; exact I).
       destruct (target_form s ot (lc tht) jt) as (a & TF). rewrite WTt in TF. cbn [snd] in TF.
       assert (EE : e = xver (C s) (is_push o) (seg_i (lc th))) by (unfold e, seg_ever; apply ever_xver).
       assert (RO : is_push o = negb (is_push ot)) by (rewrite EE in TF; unfold xver in TF; destruct (is_push o), (is_push ot); auto; lia).
@@ -747,4 +757,20 @@ Proof.
     - intros s0 t0 s1 (F0 & R0 & W0) ST. split. eapply FInv_step; eauto. split. eapply reachable_step; eauto.
       eapply WInv_step; eauto. }
   destruct J as (_ & _ & WI). destruct (WI SM) as (_ & _ & _ & Qs). intros t th sl x HT PK GV. apply (Qs t th sl x HT PK GV).
+Qed.
+
+(* a sleeper sleeps on the slot it waits for *)
+Theorem bq_parked_slot : forall k progs s, usage_ok k progs = true -> Reach k progs s -> small s ->
+  forall u thu o j sl, nth_error (threads s) u = Some thu -> cur thu = Some o -> tpc thu = WParked j sl ->
+  ofwait o = true /\ parkedOn s thu sl (snd (wait_target s o (lc thu) j)) /\ (forall sl0, 0 <= gver s sl0).
+Proof.
+  intros k progs s U R SM.
+  assert (J : FInv k progs s /\ Reach k progs s /\ WInv s).
+  { eapply inv_reachable with (Inv := fun s0 => FInv k progs s0 /\ Reach k progs s0 /\ WInv s0); eauto.
+    - split. apply FInv_init. split. exists []. reflexivity. apply WInv_init.
+    - intros s0 t0 s1 (F0 & R0 & W0) ST. split. eapply FInv_step; eauto. split. eapply reachable_step; eauto.
+      eapply WInv_step; eauto. }
+  destruct J as (_ & _ & WI). destruct (WI SM) as (_ & R4s & V0s & _). intros u thu o j sl HU CU PC.
+  destruct (R4s u thu o HU CU) as [A B]. rewrite PC. exact I. split; auto. split; auto.
+  exists o, j. split; auto. split; auto. specialize (B j sl PC). destruct (wait_target s o (lc thu) j) as [a b]. cbn in *. congruence.
 Qed.
